@@ -65,7 +65,7 @@ describe(
         "20.3 __getstate__/__setstate__/__init__ agreement (HDF5Cache, JSONGrammar, PydanticGrammar, progress bar, Serializable)",
         "20.4 class-name mangling only in classes without subclasses",
         "20.5 __getstate__ edits a copy of the state",
-        "20.6 to_pickle/from_pickle pairing", "20.7 cached JSON schema reset by edits (rule group of C15)", "20.8 run-time pydantic models pickled by their fields"],
+        "20.6 to_pickle/from_pickle pairing", "20.7 cached JSON schema reset by edits (rule group of C15)", "20.8 run-time pydantic models pickled by their fields", "20.10 builder required emptied after unpickling (rule group 15.8 of C15)"],
     not_decided=[
         "equality of outputs, Jacobians and results after restore for every class, cache, grammar and history",
         "picklability of third-party objects held by disciplines",
